@@ -463,7 +463,7 @@ func bools(n int) [][]bool {
 }
 
 func build(tier string) ([]runner.Instance, time.Duration) {
-	bound, budget := 1, 110*time.Second
+	bound, budget := 1, 140*time.Second
 	if tier == "thorough" {
 		bound, budget = 2, 14*time.Minute
 	}
